@@ -154,6 +154,32 @@ class Repo(object):
         out.update(self._qualified)
         return out
 
+    def exception_bases(self):
+        '''class name -> names of all its (transitive, in-tree) base classes'''
+        direct = {}
+        for m in self.modules.values():
+            for n in ast.walk(m.tree):
+                if isinstance(n, ast.ClassDef):
+                    direct[n.name] = [(dotted(b) or '').split('.')[-1] for b in n.bases]
+        out = {}
+        for c in direct:
+            seen, stack = set(), list(direct[c])
+            while stack:
+                b = stack.pop()
+                if b and b not in seen:
+                    seen.add(b)
+                    stack.extend(direct.get(b, []))
+            out[c] = seen
+        return out
+
+    def is_helper(self, qual):
+        '''a function that is not in the reference inventory (a newly introduced helper: its body is accounted for in its callers)'''
+        from . import equiv
+        try:
+            return qual not in equiv.inventory()
+        except Exception:
+            return False
+
     def nfunc(self, qual):
         '''the function in NORMAL FORM (sa/normal.py): helpers outside the reference inventory inlined, temporaries folded,
         guards canonical.  For rules that read the shape of a function: the reference and every equivalent rewrite of it
